@@ -379,10 +379,10 @@ func suiteC20(s *Suite, rng *Rng, tier string) {
 
 	// ---------- B'. parallel key generation (under the race detector in the race build) ----------
 	{
-		G := []int{4, 8, 16}[rng.Intn(3)]
-		per := 2
+		G := []int{8, 16}[rng.Intn(2)]
+		per := 4
 		if thorough {
-			per = 10
+			per = 12
 		}
 		before := runtime.NumGoroutine()
 		params := keygenParams(128)
